@@ -333,7 +333,26 @@ func (e *Exec) cur(s *State, fam string, args []string, res string) string {
 		ep = 0
 	}
 	name := fmt.Sprintf("|%s@e%d|", fam, ep)
-	e.decl(fmt.Sprintf("(declare-fun %s (%s) %s)", name, strings.Join(args, " "), res))
+	if !e.declSet[fmt.Sprintf("(declare-fun %s (%s) %s)", name, strings.Join(args, " "), res)] {
+		e.decl(fmt.Sprintf("(declare-fun %s (%s) %s)", name, strings.Join(args, " "), res))
+		// nil maps are empty; null counts as allocated (so frames and heap invariants cover it)
+		switch {
+		case strings.HasPrefix(fam, "has_"):
+			e.declOwned(name, fmt.Sprintf("(assert (forall ((k %s)) (! (not (%s null k)) :pattern ((%s null k)))))", args[1], name, name))
+		case strings.HasPrefix(fam, "len_"):
+			e.declOwned(name, fmt.Sprintf("(assert (= (%s null) 0))", name))
+		case fam == "$alloc":
+			e.declOwned(name, fmt.Sprintf("(assert (%s null))", name))
+		}
+	}
+	if res == "Ref" {
+		if _, ok := e.famBirth[name]; !ok {
+			e.famBirth[name] = e.epochAlloc[ep]
+			if ep == 0 {
+				e.cur(newState(), "$alloc", []string{"Ref"}, "Bool")
+			}
+		}
+	}
 	return name
 }
 
@@ -364,6 +383,9 @@ func (e *Exec) hwrite(s *State, fam string, args []string, res string, at []stri
 	}
 	s.ver[fam] = nw
 	e.written[fam] = true
+	if res == "Ref" && fam != "$alloc" {
+		e.famBirth[nw] = e.cur(s, "$alloc", []string{"Ref"}, "Bool")
+	}
 }
 
 // havoc a heap family: fresh uninterpreted version
@@ -374,6 +396,9 @@ func (e *Exec) hhavoc(s *State, fam string, args []string, res string) string {
 	e.decl(fmt.Sprintf("(declare-fun %s (%s) %s)", nw, strings.Join(args, " "), res))
 	s.ver[fam] = nw
 	e.written[fam] = true
+	if res == "Ref" && fam != "$alloc" {
+		e.famBirth[nw] = e.cur(s, "$alloc", []string{"Ref"}, "Bool")
+	}
 	return nw
 }
 
@@ -409,6 +434,7 @@ func (e *Exec) havocAll(s *State) {
 	}
 	e.havocAllUsed = true
 	after := e.hhavoc(s, "$alloc", []string{"Ref"}, "Bool")
+	e.epochAlloc[s.epoch] = after
 	s.assume("(forall ((r Ref)) (! (=> (%s r) (%s r)) :pattern ((%s r))))", before, after, after)
 }
 
@@ -461,8 +487,25 @@ func (e *Exec) mapHas(s *State, mt *types.Map, ref, key string) string {
 func (e *Exec) mapVal(s *State, mt *types.Map, ref, key string) Val {
 	_, v, ks := mapFam(mt)
 	return e.assemble(mt.Elem(), v, func(p, so string) string {
-		return fmt.Sprintf("(%s %s %s)", e.cur(s, p, []string{"Ref", ks}, so), ref, key)
+		return e.read(s, p, []string{"Ref", ks}, so, ref, key)
 	})
+}
+
+// read a heap location; in spec evaluation, reference-valued reads report the heap invariant
+// "stored references are null or were allocated when this version of the family was created"
+func (e *Exec) read(s *State, fam string, args []string, so string, at ...string) string {
+	sym := e.cur(s, fam, args, so)
+	term := app(sym, at...)
+	if so == "Ref" {
+		if e.specHook != nil {
+			e.specHook(term, sym)
+		} else if e.quietLoads == 0 {
+			if birth, ok := e.famBirth[sym]; ok {
+				s.assume("(or (= %s null) (%s %s))", term, birth, term)
+			}
+		}
+	}
+	return term
 }
 
 // value or zero
